@@ -548,6 +548,7 @@ func init() {
 					}
 				}})
 			}
+			us = append(us, core.Unit{Key: "factory-isolation", Cost: 4, Run: c09FactoryIsolation})
 			// (vii) element types: results do not depend on which instances of which element type computed before
 			for _, k := range typedKinds() {
 				k := k
